@@ -151,6 +151,12 @@ func genC05() *rapid.Generator[*Spec] {
 		if isBuild {
 			kinds = append(kinds, "arg", "arg")
 		}
+		if rt := resolveT(s, D); rt.K == "ptr" {
+			kinds = append(kinds, "fieldsptr", "fieldsptr")
+		}
+		if vs.Kind == "bind" && flavour == "same" {
+			kinds = append(kinds, "rebind", "rebind", "rebind")
+		}
 		hasSet := false
 		for _, rf := range *lists[li] {
 			if rf.Set >= 0 {
@@ -196,6 +202,19 @@ func genC05() *rapid.Generator[*Spec] {
 			p := addItem(s, Item{Kind: "func", Pkg: tmin, Name: x.fresh("DupProvideHolder"), Out: par})
 			fi := addItem(s, Item{Kind: "fields", Parent: par, Fields: []string{"F"}})
 			refs = []Ref{RItem(p), RItem(fi)}
+		case "fieldsptr":
+			// the pointer-to-field output of FieldsOf(new(*Holder), "F") duplicates D = *X
+			et := resolveT(s, D).Elem
+			s.Decls = append(s.Decls, Decl{Pkg: tmin, Name: x.fresh("DupPHolder"), Form: "struct", Fields: []SField{{Name: "Tok", T: Basic("int")}, {Name: "F", T: et}}})
+			h := Ptr(Named(len(s.Decls) - 1))
+			p := addItem(s, Item{Kind: "func", Pkg: tmin, Name: x.fresh("DupProvidePHolder"), Out: h})
+			fi := addItem(s, Item{Kind: "fields", Parent: h, Fields: []string{"F"}})
+			refs = []Ref{RItem(p), RItem(fi)}
+		case "rebind":
+			// the very same binding written a second time somewhere else
+			orig := s.Items[vs.Item]
+			refs = []Ref{RItem(addItem(s, Item{Kind: "bind", Out: orig.Out, Conc: orig.Conc}))}
+			placements = []string{"direct", "direct", "inline"}
 		case "arg":
 			in := &s.Injectors[inj]
 			name := x.fresh("dup")
@@ -241,6 +260,11 @@ func genC05() *rapid.Generator[*Spec] {
 
 func genC06() *rapid.Generator[*Spec] {
 	return rapid.Custom(func(t *rapid.T) *Spec {
+		if rapid.IntRange(0, 99).Draw(t, "sharedfamily") < 20 {
+			s := genShared(true).Draw(t, "shared")
+			s.Note = "C06 " + s.Note
+			return s
+		}
 		s := baseWF(t, WFOpts{})
 		x := &mutCtx{t: t, s: s}
 		m := NewModel(s)
@@ -259,7 +283,35 @@ func genC06() *rapid.Generator[*Spec] {
 		if key == m.K(s.Injectors[k].Out) {
 			pos = "root"
 		}
-		mut := x.pick([]string{"remove", "remove", "remove", "nearmiss", "nearmiss", "alias"}, "mut")
+		mut := x.pick([]string{"remove", "remove", "remove", "nearmiss", "nearmiss", "alias", "remove-one", "remove-one"}, "mut")
+		if mut == "remove-one" {
+			// the source disappears from this injector's own Build list only; other injectors keep it
+			done := false
+			if src.Kind != "arg" {
+				in := &s.Injectors[k]
+				var keep []Ref
+				for _, a := range in.Args {
+					if a.Item == src.Item && !done {
+						done = true
+						continue
+					}
+					keep = append(keep, a)
+				}
+				if done {
+					in.Args = keep
+					if keep == nil {
+						in.Args = []Ref{}
+					}
+				}
+			}
+			if !done {
+				mut = "remove"
+			} else {
+				s.Note = fmt.Sprintf("C06 remove-one %s pos=%s", srcKindOf(m, src), pos)
+				refreshPlan(s)
+				return s
+			}
+		}
 		if src.Kind == "arg" {
 			in := &s.Injectors[k]
 			switch mut {
@@ -287,7 +339,15 @@ func genC06() *rapid.Generator[*Spec] {
 			switch it.Kind {
 			case "func":
 				o := resolveT(s, it.Out)
-				if o.K == "ptr" && x.pct(60, "unptr") {
+				if o.K == "named" && len(o.Args) > 0 {
+					// another instantiation of the same generic type
+					n := *o
+					n.Args = []*Type{Basic("bool")}
+					if len(o.Args) == 2 {
+						n.Args = []*Type{o.Args[0], Basic("bool")}
+					}
+					it.Out = &n
+				} else if o.K == "ptr" && x.pct(60, "unptr") {
 					it.Out = o.Elem
 				} else {
 					it.Out = Ptr(it.Out)
@@ -332,7 +392,8 @@ func genC08() *rapid.Generator[*Spec] {
 			return s
 		}
 		in := &s.Injectors[k]
-		kind := x.pick([]string{"func", "value", "ivalue", "bind", "fields", "set", "inline", "inline2", "shared", "shared", "nest-control", "struct"}, "extra")
+		kind := x.pick([]string{"func", "value", "ivalue", "bind", "bind", "fields", "set", "inline", "inline2", "shared", "shared", "nest-control", "struct", "twinfunc", "twinfunc"}, "extra")
+		noShuffle := false
 		freshT := func() *Type { return Named(addFreshStruct(s, 0, x.fresh("U"))) }
 		switch kind {
 		case "func":
@@ -375,6 +436,7 @@ func genC08() *rapid.Generator[*Spec] {
 			s.Decls[base.Decl].Methods = append(s.Decls[base.Decl].Methods, Method{Name: mn})
 			s.Decls = append(s.Decls, Decl{Pkg: 0, Name: x.fresh("IB"), Form: "iface", IMeth: []string{mn}})
 			in.Args = append(in.Args, RItem(addItem(s, Item{Kind: "bind", Out: Named(len(s.Decls) - 1), Conc: ct})))
+			noShuffle = x.pct(60, "bindlast") // the superfluous binding stays after the used ones
 		case "fields":
 			// an unused field of a struct this injector provides
 			var cands []string
@@ -409,6 +471,23 @@ func genC08() *rapid.Generator[*Spec] {
 			fn := x.fresh("UF")
 			s.Decls[st.Decl].Fields = append(s.Decls[st.Decl].Fields, SField{Name: fn, T: freshT()})
 			in.Args = append(in.Args, RItem(addItem(s, Item{Kind: "fields", Parent: pt, Fields: []string{fn}})))
+		case "twinfunc":
+			// a superfluous provider that prints like a used one: same package name, same function name,
+			// different import path
+			if len(v.FuncItems) == 0 {
+				kind = "func"
+				in.Args = append(in.Args, RItem(addItem(s, Item{Kind: "func", Pkg: 0, Name: x.fresh("ProvideU"), Out: freshT()})))
+				break
+			}
+			used := &s.Items[v.FuncItems[x.intn(0, len(v.FuncItems)-1, "twinof")]]
+			s.Pkgs = append(s.Pkgs, Pkg{Dir: x.fresh("twin"), Name: s.Pkgs[used.Pkg].Name})
+			np := len(s.Pkgs) - 1
+			if s.ImportAlias == nil {
+				s.ImportAlias = map[int]string{}
+			}
+			s.ImportAlias[np] = x.fresh("twinp")
+			ft := Named(addFreshStruct(s, np, "TwinT"))
+			in.Args = append(in.Args, RItem(addItem(s, Item{Kind: "func", Pkg: np, Name: used.Name, Out: ft})))
 		case "set":
 			it := addItem(s, Item{Kind: "func", Pkg: 0, Name: x.fresh("ProvideU"), Out: freshT()})
 			s.Sets = append(s.Sets, Set{Pkg: 0, Name: x.fresh("USet"), Args: []Ref{RItem(it)}, AliasOf: -1})
@@ -460,7 +539,7 @@ func genC08() *rapid.Generator[*Spec] {
 				}
 			}
 		}
-		if x.pct(50, "shuffle") && len(in.Args) > 1 {
+		if !noShuffle && x.pct(50, "shuffle") && len(in.Args) > 1 {
 			in.Args = rapid.Permutation(in.Args).Draw(t, "order")
 		}
 		s.Note = "C08 extra=" + kind
@@ -551,6 +630,20 @@ func genC09() *rapid.Generator[*Spec] {
 			s.Note = "C09 none"
 			return s
 		}
+		weighted := func() []string {
+			// result lists biased to the atoms the rule table is about
+			l := x.pick([]string{"0", "1", "2", "2", "2", "3", "3", "3", "3", "4"}, "shapelen2")
+			n := int(l[0] - '0')
+			out := make([]string, n)
+			for i := range out {
+				if i == 0 {
+					out[i] = x.pick([]string{"T", "T", "*T", "error", "func()", "int"}, "atom0")
+				} else {
+					out[i] = x.pick([]string{"error", "error", "func()", "func()", "aliasfunc", "namedfunc", "otherfunc", "aliaserr", "namederr", "T", "int"}, "atom")
+				}
+			}
+			return out
+		}
 		shapeNo := func() int {
 			// bias to short lists; the long tail is sampled
 			switch x.intn(0, 9, "shapelen") {
@@ -580,6 +673,9 @@ func genC09() *rapid.Generator[*Spec] {
 			fi := funcs[x.intn(0, len(funcs)-1, "func")]
 			it := &s.Items[fi]
 			names := shapeFromNumber(shapeNo())
+			if x.pct(60, "weightedshape") {
+				names = weighted()
+			}
 			it.RawResults = []*Type{}
 			for _, nm := range names {
 				it.RawResults = append(it.RawResults, resultAtom(x, nm, it.Out))
@@ -593,6 +689,9 @@ func genC09() *rapid.Generator[*Spec] {
 		case "injshape":
 			in := &s.Injectors[k]
 			names := shapeFromNumber(shapeNo())
+			if x.pct(60, "weightedshape") {
+				names = weighted()
+			}
 			in.RawResults = []*Type{}
 			for _, nm := range names {
 				in.RawResults = append(in.RawResults, resultAtom(x, nm, in.Out))
